@@ -726,5 +726,218 @@ theorem c05_op_add_type (ev : Ev S B) (K : Consts S) (A : Arith S) (self o r r' 
     r.ty = r'.ty ∧ r.c = r'.c := by
   rw [c05_op_add, h'] at h; cases h; exact ⟨rfl, rfl⟩
 
+/-! ### the coordinate system of the result depends only on the operands' coordinate systems -/
+
+/-- key atoms contributed by one operand, from its TYPE alone -/
+def opKeyT (t : VT) (n : Nat) : Option (List KA) :=
+  match n, t.lon, t.tmp with
+  | 1, _, _ => some [.az t.az]
+  | 2, some l, _ => some [.az t.az, .lon l]
+  | 3, some l, some tm => some [.az t.az, .lon l, .tmp tm]
+  | _, _, _ => none
+
+theorem c05_operandKey_type (v : Vec S) (n : Nat) : (operandKey v n).map (·.1) = opKeyT v.ty n := by
+  unfold operandKey opKeyT
+  split <;> simp_all
+
+/-- the dispatch key, from the module, the Euler order and the operand TYPES alone -/
+def dispatchKey (m : ModuleId) (ord : Option Ord) (tys : List VT) : Option (List KA) :=
+  if (operandSlots m.info.shape).length != tys.length then none else
+  ((tys.zip (operandSlots m.info.shape)).mapM fun p => opKeyT p.1 p.2).map fun ks =>
+    ks.flatten ++ (match ord with | some o => [KA.ord o] | none => [])
+
+private theorem mapM_key : ∀ (l : List (Vec S × Nat)) (parts : List (List KA × List S)),
+    l.mapM (fun p => operandKey p.1 p.2) = some parts →
+    (l.map fun p => (p.1.ty, p.2)).mapM (fun p => opKeyT p.1 p.2) = some (parts.map (·.1)) := by
+  intro l
+  induction l with
+  | nil => intro parts h; simp at h; subst h; simp
+  | cons p l ih =>
+    intro parts h
+    rw [List.mapM_cons] at h
+    rw [List.map_cons, List.mapM_cons]
+    cases hf : operandKey p.1 p.2 with
+    | none => rw [hf] at h; simp at h
+    | some b =>
+      cases hr : l.mapM (fun p => operandKey p.1 p.2) with
+      | none => rw [hf, hr] at h; simp at h
+      | some bs =>
+        rw [hf, hr] at h
+        simp at h
+        subst h
+        have := c05_operandKey_type p.1 p.2
+        rw [hf] at this
+        simp at this
+        rw [← this, ih bs hr]
+        simp
+
+/-- inversion of `dispatch`, with the key made explicit: it is `dispatchKey` of the operand types -/
+theorem c05_dispatch_inv_key (ev : Ev S B) (m : ModuleId) (sc : List S) (ord : Option Ord) (ops counted : List (Vec S))
+    (res : Res S B) (h : dispatch ev m sc ord ops counted = .ok res) :
+    ∃ key args out ret hd, dispatchKey m ord (ops.map (·.ty)) = some key ∧ ev m key args = some (out, ret) ∧
+      handlerOf counted = some hd ∧ wrapResult hd hd.ty.be (counted.any (·.ty.mom)) out ret = .ok res := by
+  unfold dispatch at h
+  simp only [] at h
+  split at h
+  · cases h
+  · rename_i hlen
+    split at h
+    · cases h
+    · rename_i parts hparts
+      split at h
+      · cases h
+      · split at h
+        · cases h
+        · refine ⟨_, _, _, _, _, ?_, by assumption, by assumption, h⟩
+          have hk := mapM_key (ops.zip (operandSlots m.info.shape)) parts hparts
+          unfold dispatchKey
+          rw [List.length_map, if_neg hlen, List.zip_map_left]
+          have e : (List.map (Prod.map (fun x : Vec S => x.ty) id) (ops.zip (operandSlots m.info.shape)))
+              = (List.map (fun p => (p.1.ty, p.2)) (ops.zip (operandSlots m.info.shape))) := rfl
+          rw [e, hk]
+          rfl
+
+/-- the handler, on types -/
+def handlerT (ts : List VT) : Option VT :=
+  ts.foldl (fun h t => match h with
+    | none => some t
+    | some h => if t.be.prio > h.be.prio then some t else some h) none
+
+private theorem handler_fold_ty (vs : List (Vec S)) : ∀ acc : Option (Vec S),
+    (vs.foldl (fun h v => match h with
+      | none => some v
+      | some h => if v.ty.be.prio > h.ty.be.prio then some v else some h) acc).map (·.ty) =
+    (vs.map (·.ty)).foldl (fun h t => match h with
+      | none => some t
+      | some h => if t.be.prio > h.be.prio then some t else some h) (acc.map (·.ty)) := by
+  induction vs with
+  | nil => intro acc; rfl
+  | cons v vs ih =>
+    intro acc
+    rw [List.foldl_cons, ih, List.map_cons, List.foldl_cons]
+    congr 1
+    cases acc with
+    | none => rfl
+    | some a =>
+      simp only [Option.map_some]
+      split <;> rfl
+
+/-- the TYPE of the handler depends only on the operand types -/
+theorem c05_handlerOf_type (vs : List (Vec S)) : (handlerOf vs).map (·.ty) = handlerT (vs.map (·.ty)) :=
+  handler_fold_ty vs none
+
+/-- assumption on the compute layer: the declared result it returns for a key is the one in the generated table
+(proved for the generated executable model below) -/
+structure EvTables (ev : Ev S B) : Prop where
+  ret_declared : ∀ m k a out ret, ev m k a = some (out, ret) → declared m k = some ret
+
+/-- C05, coordinate system: the TYPE of a vector result (class, flavor, coordinate systems, dimension) depends only on the
+method's module, the Euler order and the TYPES of the operands — never on a coordinate value or scalar argument -/
+theorem c05_dispatch_type_only (ev : Ev S B) (hev : EvTables ev) (m : ModuleId) (sc sc' : List S) (ord : Option Ord)
+    (ops ops' counted counted' : List (Vec S)) (r r' : Vec S)
+    (hops : ops.map (·.ty) = ops'.map (·.ty)) (hc : counted.map (·.ty) = counted'.map (·.ty))
+    (h : dispatch ev m sc ord ops counted = .ok (.vec r)) (h' : dispatch ev m sc' ord ops' counted' = .ok (.vec r')) :
+    r.ty = r'.ty := by
+  obtain ⟨key, args, out, ret, hd, hk, he, hh, hw⟩ := c05_dispatch_inv_key ev m sc ord ops counted _ h
+  obtain ⟨key', args', out', ret', hd', hk', he', hh', hw'⟩ := c05_dispatch_inv_key ev m sc' ord ops' counted' _ h'
+  rw [hops, hk'] at hk
+  cases hk
+  have hr := hev.ret_declared _ _ _ _ _ he
+  rw [hev.ret_declared _ _ _ _ _ he'] at hr
+  cases hr
+  have hty : hd.ty = hd'.ty := by
+    have h1 := c05_handlerOf_type counted
+    have h2 := c05_handlerOf_type counted'
+    rw [hh] at h1; rw [hh', ← hc, ← h1] at h2
+    simpa using h2.symm
+  have hmom : counted.any (·.ty.mom) = counted'.any (·.ty.mom) := by
+    have e : ∀ l : List (Vec S), l.any (·.ty.mom) = (l.map (·.ty)).any (·.mom) := by
+      intro l; rw [List.any_map]; rfl
+    rw [e, e, hc]
+  obtain ⟨raw, parts, _, rfl, hv⟩ := c05_wrapResult_vec _ _ _ _ _ _ hw
+  obtain ⟨raw', parts', _, hp, hv'⟩ := c05_wrapResult_vec _ _ _ _ _ _ hw'
+  cases hp
+  rw [← hmom, ← hty] at hv'
+  exact c05_wrapVec_type_only hd hd' r r' _ _ raw raw' parts hty hv hv'
+
+
+/-! ### the documented dimension of the result, method by method -/
+
+/-- the kinds of declared result that occur in the tables -/
+inductive RKind | float | bool | A | AL | AL0 | ALT
+  deriving DecidableEq, Repr
+
+def retKind : Ret → Option RKind
+  | .float => some .float
+  | .bool => some .bool
+  | .vec [.az _] => some .A
+  | .vec [.az _, .lon _] => some .AL
+  | .vec [.az _, .lon _, .none] => some .AL0
+  | .vec [.az _, .lon _, .tmp _] => some .ALT
+  | _ => none
+
+/-- the kind of result each compute module declares (uniformly, for all of its keys) -/
+def _root_.VK.ModuleId.kind : ModuleId → RKind
+  | .planar_add | .planar_subtract | .planar_rotateZ | .planar_scale | .planar_transform2D | .planar_unit => .A
+  | .spatial_add | .spatial_subtract | .spatial_rotateX | .spatial_rotateY | .spatial_rotate_axis
+  | .spatial_rotate_euler | .spatial_rotate_quaternion | .spatial_scale | .spatial_transform3D | .spatial_unit => .AL
+  | .spatial_cross | .lorentz_to_beta3 => .AL0
+  | .lorentz_add | .lorentz_subtract | .lorentz_boostX_beta | .lorentz_boostX_gamma | .lorentz_boostY_beta
+  | .lorentz_boostY_gamma | .lorentz_boostZ_beta | .lorentz_boostZ_gamma | .lorentz_boost_beta3 | .lorentz_boost_p4
+  | .lorentz_scale | .lorentz_transform4D | .lorentz_unit => .ALT
+  | .lorentz_equal | .lorentz_is_lightlike | .lorentz_is_spacelike | .lorentz_is_timelike | .lorentz_isclose
+  | .lorentz_not_equal | .planar_equal | .planar_is_antiparallel | .planar_is_parallel | .planar_is_perpendicular
+  | .planar_isclose | .planar_not_equal | .spatial_equal | .spatial_is_antiparallel | .spatial_is_parallel
+  | .spatial_is_perpendicular | .spatial_isclose | .spatial_not_equal => .bool
+  | _ => .float
+
+/-- every entry of a module's table declares a result of the module's kind -/
+theorem c05_module_kind : ∀ m : ModuleId, ∀ e ∈ m.table, retKind e.2 = some m.kind := by
+  intro m
+  cases m <;> decide +kernel
+
+/-- dimension of a vector result of each kind, given the dimension of the handler -/
+def kindDim : RKind → Nat → Nat
+  | .A, d => d
+  | .AL, d => if d = 4 then 4 else 3
+  | .AL0, _ => 3
+  | .ALT, _ => 4
+  | _, _ => 0
+
+def RKind.isVec : RKind → Bool
+  | .float | .bool => false
+  | _ => true
+
+private theorem resultDim_kind (parts : List RP) (k : RKind) (d : Nat) (h : retKind (.vec parts) = some k) :
+    resultDim parts d = kindDim k d ∧ k.isVec = true := by
+  unfold retKind at h
+  split at h <;> first | (cases h; done) | (rename_i heq; cases heq <;> (cases h; exact ⟨rfl, rfl⟩))
+
+/-- the dimension of a vector result of `dispatch`: determined by the module's kind and the handler's dimension;
+a module that declares `float`/`bool` never gives a vector -/
+theorem c05_dispatch_dim_kind (ev : Ev S B) (hev : EvTables ev) (m : ModuleId) (sc : List S) (ord : Option Ord)
+    (ops counted : List (Vec S)) (r : Vec S) (h : dispatch ev m sc ord ops counted = .ok (.vec r)) :
+    ∃ hd, handlerOf counted = some hd ∧ r.ty.dim = kindDim m.kind hd.ty.dim ∧ m.kind.isVec = true := by
+  obtain ⟨key, args, raw, parts, hd, he, hh, _, hdim⟩ := c05_dispatch_dim ev m sc ord ops counted r h
+  have hm := lookup_mem _ _ _ (hev.ret_declared _ _ _ _ _ he)
+  have hk := c05_module_kind m _ hm
+  obtain ⟨h1, h2⟩ := resultDim_kind parts m.kind hd.ty.dim hk
+  exact ⟨hd, hh, by rw [hdim, h1], h2⟩
+
+/-- scalar and truth results come from modules that declare them -/
+theorem c05_dispatch_scalar_kind (ev : Ev S B) (hev : EvTables ev) (m : ModuleId) (sc : List S) (ord : Option Ord)
+    (ops counted : List (Vec S)) (s : S) (h : dispatch ev m sc ord ops counted = .ok (.scalar s)) : m.kind = .float := by
+  obtain ⟨key, args, out, ret, hd, he, hh, hw⟩ := c05_dispatch_inv ev m sc ord ops counted _ h
+  obtain ⟨rfl, _⟩ := c05_wrapResult_scalar _ _ _ _ _ _ hw
+  have hk := c05_module_kind m _ (lookup_mem _ _ _ (hev.ret_declared _ _ _ _ _ he))
+  simp [retKind] at hk; exact hk.symm
+
+theorem c05_dispatch_truth_kind (ev : Ev S B) (hev : EvTables ev) (m : ModuleId) (sc : List S) (ord : Option Ord)
+    (ops counted : List (Vec S)) (b : B) (h : dispatch ev m sc ord ops counted = .ok (.truth b)) : m.kind = .bool := by
+  obtain ⟨key, args, out, ret, hd, he, hh, hw⟩ := c05_dispatch_inv ev m sc ord ops counted _ h
+  obtain ⟨rfl, _⟩ := c05_wrapResult_truth _ _ _ _ _ _ hw
+  have hk := c05_module_kind m _ (lookup_mem _ _ _ (hev.ret_declared _ _ _ _ _ he))
+  simp [retKind] at hk; exact hk.symm
+
 end
 end VG
